@@ -67,15 +67,16 @@ impl InstructionGenerator {
                 self.push(Instruction::CopyAToB, pos);
                 // step back to A
                 self.push(Instruction::CopyDToA, pos);
-                // is step <> 0 ?
-                self.push(Instruction::NotEqual, pos);
-                self.jump_if_false("zero", pos);
+                // is step = 0 ?
+                self.push(Instruction::Equal, pos);
+                self.jump_if_false("non-zero", pos);
+                // Zero step: raised before the loop, so that the error belongs to the
+                // FOR statement and RESUME evaluates the FOR statement again
+                self.push(Instruction::Throw(RuntimeError::ForLoopZeroStep), step_pos);
+                self.label("non-zero", pos);
                 // the sign of the step is tested at run time on every iteration,
                 // so that the body (and its labels) is generated only once
                 self.generate_for_loop_instructions_any_step(&counter_var_name, statements, pos);
-                // Zero step
-                self.label("zero", pos);
-                self.push(Instruction::Throw(RuntimeError::ForLoopZeroStep), step_pos);
                 self.label("out-of-for", pos);
             }
             None => {
